@@ -163,6 +163,81 @@ func getValueFromConfig(config *config.Config, path string) (interface{}, error)
 	return current, nil
 }
 
+// findFieldTypeByPath is findFieldByPath on the static type.
+func findFieldTypeByPath(t reflect.Type, pathPart string) (reflect.Type, bool) {
+	for i := 0; i < t.NumField(); i++ {
+		field := t.Field(i)
+		jsonTag := field.Tag.Get("json")
+		if jsonTag != "" {
+			tagName := strings.Split(jsonTag, ",")[0]
+			if tagName == pathPart {
+				return field.Type, true
+			}
+		}
+	}
+
+	field, ok := t.FieldByNameFunc(func(name string) bool {
+		return strings.EqualFold(name, pathPart)
+	})
+	if !ok {
+		return nil, false
+	}
+	return field.Type, true
+}
+
+// leafTypeOf walks the static type along parts the way setValueInConfig walks
+// the value. It returns nil when the type of the leaf cannot be known without
+// looking at the value (interface-typed plugin maps).
+func leafTypeOf(t reflect.Type, parts []string) (reflect.Type, error) {
+	for _, part := range parts {
+		for t.Kind() == reflect.Ptr {
+			t = t.Elem()
+		}
+
+		switch t.Kind() {
+		case reflect.Struct:
+			fieldType, ok := findFieldTypeByPath(t, part)
+			if !ok {
+				return nil, fmt.Errorf("field not found: %s", part)
+			}
+			t = fieldType
+		case reflect.Map:
+			t = t.Elem()
+		case reflect.Interface:
+			return nil, nil
+		default:
+			return nil, fmt.Errorf("cannot navigate into type %s at %s", t.Kind(), part)
+		}
+	}
+	return t, nil
+}
+
+// checkSettable reports, without touching the configuration, whether value
+// can be stored at parts below a value of type root. setValueInConfig creates
+// the map entries and pointers on the way to the leaf while it navigates, so
+// everything that can make it fail has to be checked before it starts.
+func checkSettable(root reflect.Type, parts []string, value interface{}) error {
+	if value == nil {
+		return fmt.Errorf("cannot set a nil value")
+	}
+
+	leafType, err := leafTypeOf(root, parts)
+	if err != nil {
+		return err
+	}
+	if leafType == nil || leafType.Kind() == reflect.Interface {
+		return nil
+	}
+
+	if reflect.TypeOf(value).AssignableTo(leafType) {
+		return nil
+	}
+	if _, err := convertValue(value, leafType); err != nil {
+		return fmt.Errorf("cannot convert value: %w", err)
+	}
+	return nil
+}
+
 func setValueInConfig(config *config.Config, path string, value interface{}, pattern confpaths.Path) error {
 	parts, err := decodePathSegments(path, pattern.String())
 	if err != nil {
@@ -199,6 +274,11 @@ func setValueInConfig(config *config.Config, path string, value interface{}, pat
 						return fmt.Errorf("plugin config is nil: %s", ns)
 					}
 					current = current.Elem()
+				}
+				if current.IsValid() {
+					if err := checkSettable(current.Type(), parts[len(nsParts):], value); err != nil {
+						return err
+					}
 				}
 
 				for i := len(nsParts); i < len(parts)-1; i++ {
@@ -302,6 +382,10 @@ func setValueInConfig(config *config.Config, path string, value interface{}, pat
 				return nil
 			}
 		}
+	}
+
+	if err := checkSettable(reflect.TypeOf(config), parts, value); err != nil {
+		return err
 	}
 
 	var current reflect.Value = reflect.ValueOf(config)
